@@ -221,3 +221,79 @@ func shortSym(fn string) string {
 	}
 	return fn
 }
+
+// tornSnapshots (ordinary build): the same reload-against-getter scenario under the schedule explorer,
+// judged by what a getter sees. One edit changes two keys at once; a snapshot getter (String/ToString)
+// running concurrently with the reload must show both keys from the old file or both from the new
+// one - never one of each (the lock must cover the whole application of a file, not single keys).
+func tornSnapshots(c *evid.Ctx) {
+	e := newEnv(c)
+	if e == nil {
+		return
+	}
+	defer os.RemoveAll(e.dir)
+	for _, getter := range []string{"String", "ToString"} {
+		getter := getter
+		sc := func(x *sched.Exec) func() string {
+			vrt.Filter = func(string) bool { return false }
+			vtime.Epoch = vtime.DefaultEpoch
+			e.write("k1=old\nk2=old\nk3=old\n", vtime.DefaultEpoch.Add(-time.Hour))
+			fc := conffile.VerifNew(conffile.WithHomePath(e.dir), conffile.WithConfigObserver(config.NewConfigObserver()))
+			e.write("k1=new\nk2=new\nk3=new\n", vtime.DefaultEpoch.Add(-time.Minute))
+			var snaps []string
+			x.Spawn("reload", func() {
+				vtime.Sleep(3100 * time.Millisecond)
+				x.Yield(sched.Op{Kind: "op:reload"})
+				fc.VerifReload()
+			})
+			x.Spawn("getter", func() {
+				vtime.Sleep(3100 * time.Millisecond)
+				for i := 0; i < 2; i++ {
+					x.Yield(sched.Op{Kind: "op:" + getter})
+					if getter == "String" {
+						snaps = append(snaps, fc.String())
+					} else {
+						snaps = append(snaps, fc.ToString())
+					}
+				}
+			})
+			return func() string {
+				vrt.Filter = nil
+				if x.Deadlock {
+					return "deadlock: " + strings.Join(x.Blocked, ",")
+				}
+				for _, t := range x.Threads() {
+					if t.Panic != nil {
+						return fmt.Sprintf("panic: thread %s died: %v", t.Name, t.Panic)
+					}
+				}
+				for _, s := range snaps {
+					olds, news := 0, 0
+					for _, k := range []string{"k1", "k2", "k3"} {
+						if strings.Contains(s, k+"=old") {
+							olds++
+						}
+						if strings.Contains(s, k+"=new") {
+							news++
+						}
+					}
+					if olds+news != 3 || (olds != 0 && news != 0) {
+						return fmt.Sprintf("torn: %s() during a reload shows %d keys of the old file and %d of the new one: %q", getter, olds, news, strings.ReplaceAll(s, "\n", " "))
+					}
+				}
+				return ""
+			}
+		}
+		st, viols, err := dfs.Explore(sc, dfs.Config{Preemptions: 3, Faults: 0, StepCap: 5000}, false)
+		if err != nil {
+			c.Broken(err.Error())
+			continue
+		}
+		c.Count("torn_snapshot_schedules", int64(st.Executions))
+		c.Count("states", int64(st.Executions))
+		for _, v := range viols {
+			kind := strings.SplitN(v.Verdict, ":", 2)[0]
+			c.Violation("C18:concurrent-getter:"+kind, fmt.Sprintf("%s — schedule %v", v.Verdict, v.Choices), map[string]interface{}{"engine": "E1", "choices": v.Choices, "trace": v.Trace})
+		}
+	}
+}
